@@ -21,6 +21,16 @@ REAL_POINTS = {  # seeded sample points for real-valued free inputs
     0: 0.37,
     1: -1.21,
 }
+REAL_POINTS_BY_CARRIER = {
+    # free real inputs must stay inside the carrier on which the program's
+    # semiring is declared (C02's side condition): non-negative for max/min with mul
+    "tropical": {0: 0.37, 1: 1.21},
+}
+
+
+def set_carrier(family):
+    REAL_POINTS.clear()
+    REAL_POINTS.update(REAL_POINTS_BY_CARRIER.get(family, {0: 0.37, 1: -1.21}))
 
 
 class Declined(Exception):
